@@ -11,6 +11,7 @@ import argparse, json, os, shutil, subprocess, sys, threading, queue, time, coll
 
 ENV = dict(os.environ, GOFLAGS="-mod=mod", GOPROXY="off", GOSUMDB="off", GOTOOLCHAIN="local", GONOSUMDB="*", CGO_ENABLED="1")
 ROOT = "/tmp/mut"
+RACE = False  # --race: run only C20 (needs the -race build of the harness per mutant)
 BASE = ROOT + "/base"  # snapshot of /repo taken when the sweep starts; /repo itself is never touched or re-read
 # cheapest checks first (quick-tier CPU cost), so that a mutant is usually killed by an inexpensive run
 COST = {"C13": 1, "C04": 2, "C07": 3, "C09": 4, "C02": 5, "C15": 6, "C16": 7, "C14": 8, "C01": 9, "C18": 10, "C06": 11, "C03": 12, "C08": 13, "C12": 14, "C05": 15, "C17": 16, "C11": 17, "C10": 18, "C19": 19, "C20": 20}
@@ -72,15 +73,23 @@ def run_mutant(lane, m, props, workers, allprops):
             res["detail"] = out[-400:]
             return res
         env = dict(ENV, VERIF_DIR=lane + "/v", VERIF_BIN=lane + "/verif", VERIF_WORKERS=str(workers), VERIF_FAILFAST="1", VERIF_CASE_TIMEOUT="45")
+        if RACE:
+            rc, out = sh(["go", "build", "-race", f"-modfile={lane}/harness.mod", "-tags", "verif", "-o", lane + "/verif-race", "./cmd/verif"], cwd="/verif/harness", timeout=1200)
+            if rc != 0:
+                res["status"] = "harness-build-failed"
+                res["detail"] = out[-400:]
+                return res
+            env["VERIF_BIN_RACE"] = lane + "/verif-race"
+            env["VERIF_CASE_TIMEOUT"] = "200"
         order = sorted(props, key=lambda p: COST.get(p, 99))
         if allprops:
             order += [p for p in NONRACE if p not in order]
         ran = []
         for pid in order:
-            if pid == "C20":
+            if (pid == "C20") != RACE:
                 continue
             t0 = time.time()
-            rc, out = sh([lane + "/verif", "run", pid, "quick"], cwd=lane + "/v", env=env, timeout=420)
+            rc, out = sh([lane + "/verif", "run", pid, "quick"], cwd=lane + "/v", env=env, timeout=900 if RACE else 420)
             ran.append([pid, rc, round(time.time() - t0, 1)])
             if rc == 124 or (rc == 2 and "case-timeout" in out):
                 # the mutant makes the code hang or crawl: the check does not end in time / ends inconclusive with case timeouts - not silent
@@ -136,7 +145,13 @@ def main():
     ap.add_argument("--stride", type=int, default=1)
     ap.add_argument("--out", default="/verif/mutation/results.jsonl")
     ap.add_argument("--allprops", action="store_true")
+    ap.add_argument("--race", action="store_true")
+    ap.add_argument("--root", default="/tmp/mut")
     a = ap.parse_args()
+    global RACE, ROOT, BASE
+    RACE = a.race
+    ROOT = a.root
+    BASE = ROOT + "/base"
     if subprocess.run(["git", "-C", "/repo", "status", "--short"], stdout=subprocess.PIPE).stdout.strip():
         sys.exit("/repo is not clean")
     os.makedirs(ROOT, exist_ok=True)
